@@ -1,3 +1,146 @@
-import DosModel.Model.Util
--- stub: no model driver for this property yet
-def main : IO Unit := Dos.lineLoop (fun _ => "unimplemented")
+/-
+C20 driver: maps a case line of go/props/c20 to the line the real code must print.
+Scalar routines = the GENERATED translation of scalar.go executed with the real shift;
+Schnorr = Model/Schnorr.lean over the independent SHA-512 / Edwards arithmetic in the same file.
+-/
+import DosModel.Model.Schnorr
+import DosModel.Gen.Ed25519Sc
+
+open Dos Dos.Ed25519 Dos.Schnorr
+
+namespace C20
+
+def H := Sha512.sha512
+def g := edGrp
+
+def hex! (s : String) : Bytes := (ofHex s).getD []
+
+def msgOf (tok : String) : Bytes :=
+  if tok.startsWith "x" then hex! (tok.drop 1).toString
+  else
+    match ((tok.drop 1).toString.splitOn ",").map (fun s => s.toNat?.getD 0) with
+    | [n, a, b] => (List.range n).map (fun i => UInt8.ofNat ((a * i + b) % 256))
+    | _ => []
+
+def zero32 : Bytes := List.replicate 32 0
+def one32 : Bytes := 1 :: List.replicate 31 0
+
+/-- scalar.Inv: square-and-multiply over the bits 255…0 of lMinus2, every step is scMul -/
+def scInv (a : Bytes) : Bytes := Id.run do
+  let mut res := one32
+  for j in [0:256] do
+    let i := 255 - j
+    res := Gen.Ed25519Sc.scMul shrI res res
+    if (Gen.Ed25519Sc.lMinus2 / 2 ^ i) % 2 = 1 then
+      res := Gen.Ed25519Sc.scMul shrI res a
+  return res
+
+def verdict : Except VErr Unit → String
+  | .ok _ => "ok"
+  | .error e => "rej:" ++ e.name
+
+def stdVerdict (pub msg sig : Bytes) : String :=
+  if pub.length = 32 ∧ verifyStd g H pub msg sig then "ok" else "rej"
+
+/-- the nonce `random.Int(l, stream)` draws from the harness' fixed stream: 32 bytes big-endian, top 3 bits
+masked, accepted if 0 < k < l; otherwise the stream continues with 00…01 blocks, i.e. k = 1 -/
+def nonceOf (kb : Bytes) : Nat :=
+  let k := beNat kb % 2 ^ 253
+  if 0 < k ∧ k < ell then k else 1
+
+structure StdKey where
+  a : Nat          -- clamped secret scalar
+  pre : Bytes      -- hash prefix
+  pub : Bytes
+
+def stdKey (seed : Bytes) : StdKey :=
+  let d := H seed
+  let lo := d.take 32
+  let a := (leNat lo % 2 ^ 255) / 8 * 8 % 2 ^ 254 + 2 ^ 254
+  { a := a, pre := d.drop 32, pub := g.enc (g.smul (a % ell) g.base) }
+
+/-- RFC 8032 §5.1.6 signing (what crypto/ed25519.Sign does) -/
+def stdSign (k : StdKey) (msg : Bytes) : Bytes :=
+  let r := leNat (H (k.pre ++ msg)) % ell
+  let R := g.enc (g.smul r g.base)
+  let hk := leNat (H (R ++ k.pub ++ msg)) % ell
+  R ++ natLE 32 ((r + hk * k.a) % ell)
+
+def flipBit (bs : Bytes) (b : Nat) : Bytes :=
+  bs.mapIdx (fun i x => if i = b / 8 then x ^^^ UInt8.ofNat (2 ^ (b % 8)) else x)
+
+def bundledVerdict (pub msg sig : Bytes) : String :=
+  match g.dec pub with
+  | none => "rej:key"
+  | some A => verdict (verify g H A msg sig)
+
+def step (line : String) : String :=
+  let w := words line
+  let arg (i : Nat) : String := w.getD i ""
+  let hx (i : Nat) : Bytes := hex! (arg i)
+  match arg 0 with
+  | "sc" =>
+    match arg 1 with
+    | "muladd" => toHex (Gen.Ed25519Sc.scMulAdd shrI (hx 2) (hx 3) (hx 4))
+    | "add" => toHex (Gen.Ed25519Sc.scAdd shrI (hx 2) (hx 3))
+    | "sub" => toHex (Gen.Ed25519Sc.scSub shrI (hx 2) (hx 3))
+    | "mul" => toHex (Gen.Ed25519Sc.scMul shrI (hx 2) (hx 3))
+    | "reduce" => toHex (Gen.Ed25519Sc.scReduce shrI (hx 2))
+    | _ => "bad sc op"
+  | "api" =>
+    match arg 1 with
+    | "add" => toHex (scMarshal (Gen.Ed25519Sc.scAdd shrI (hx 2) (hx 3)))
+    | "sub" => toHex (scMarshal (Gen.Ed25519Sc.scSub shrI (hx 2) (hx 3)))
+    | "mul" => toHex (scMarshal (Gen.Ed25519Sc.scMul shrI (hx 2) (hx 3)))
+    | "neg" => toHex (scMarshal (Gen.Ed25519Sc.scSub shrI zero32 (hx 2)))
+    | "inv" => toHex (scMarshal (scInv (hx 2)))
+    | "setbytes" => toHex (scSetBytes (hx 2))
+    | "unmarshal" =>
+      match scUnmarshal (hx 2) with
+      | .ok v => "ok " ++ toHex (scMarshal v)
+      | .error _ => "err size"
+    | _ => "bad api op"
+  | "pt" =>
+    match g.dec (hx 1) with
+    | none => "err"
+    | some P => "ok " ++ toHex (g.enc P)
+  | "sv" =>
+    let key := stdKey (hx 1)
+    let k := nonceOf (hx 2)
+    let msg := msgOf (arg 3)
+    let x := key.a % ell
+    let sig := sign g H x k msg
+    let sig2 := stdSign key msg
+    s!"pub={toHex key.pub} sig={toHex sig} bv={bundledVerdict key.pub msg sig} sv={stdVerdict key.pub msg sig} sig2={toHex sig2} bv2={bundledVerdict key.pub msg sig2}"
+  | "svx" =>
+    let x := leNat (hx 1)
+    let k := nonceOf (hx 2)
+    let msg := msgOf (arg 3)
+    let pub := g.enc (g.smul x g.base)
+    let sig := sign g H x k msg
+    s!"pub={toHex pub} sig={toHex sig} bv={bundledVerdict pub msg sig} sv={stdVerdict pub msg sig}"
+  | "mut" =>
+    let key := stdKey (hx 1)
+    let k := nonceOf (hx 2)
+    let msg := msgOf (arg 3)
+    let sig := if arg 4 == "b" then sign g H (key.a % ell) k msg else stdSign key msg
+    let what := (arg 5).splitOn ":"
+    let kind := what.getD 0 ""
+    let a := what.getD 1 ""
+    let n := a.toNat?.getD 0
+    let (pub, msg, sig) : Bytes × Bytes × Bytes :=
+      match kind with
+      | "sig" => (key.pub, msg, flipBit sig n)
+      | "msg" => (key.pub, flipBit msg n, sig)
+      | "app" => (key.pub, msg ++ [UInt8.ofNat n], sig)
+      | "key" => (flipBit key.pub n, msg, sig)
+      | "splus" => (key.pub, msg, sig.take 32 ++ natLE 32 (leNat (sig.drop 32) + ell))
+      | "trunc" => (key.pub, msg, sig.take n)
+      | "ext" => (key.pub, msg, sig ++ hex! a)
+      | _ => (key.pub, msg, sig)
+    s!"bv={bundledVerdict pub msg sig} sv={stdVerdict pub msg sig}"
+  | _ => "bad case line"
+
+end C20
+
+def main : IO Unit := Dos.lineLoop C20.step
